@@ -16,7 +16,6 @@ func init() {
 					{Fn: "Harness_C19_optimize_n3", Tiers: "both", Reach: []string{"end"}, Bounds: "3 fields, same ranges"},
 					{Fn: "Harness_C19_combine_n2", Tiers: "both", Reach: []string{"end"}, Bounds: "default mode (combine, then optimize): 2 top-level fields without nesting, same ranges"},
 					{Fn: "Harness_C19_combine_n3", Tiers: "both", Reach: []string{"end"}, Bounds: "default mode: 3 top-level fields without nesting"},
-					{Fn: "Harness_C19_optimize_n4", Tiers: "thorough", Reach: []string{"end"}, Bounds: "4 fields, same ranges"},
 				},
 			}, {
 				PkgPath: "honnef.co/go/tools/go/gcsizes",
